@@ -1,7 +1,6 @@
 package types
 
 import (
-	"bytes"
 	"strings"
 )
 
@@ -47,25 +46,11 @@ func ExtractCommentTags(lines []string, markers ...byte) (tags map[string][]stri
 }
 
 func splitKV(line string) (string, string) {
-	k := bytes.NewBuffer(nil)
-	v := bytes.NewBuffer(nil)
-
-	forValue := false
-
-	for _, c := range line {
-		if !forValue && (c == '=' || c == ' ') {
-			forValue = true
-			continue
-		}
-
-		if forValue {
-			v.WriteRune(c)
-		} else {
-			k.WriteRune(c)
-		}
+	// cut at the first '=' or ' ': bytes are kept as they are (no re-encoding of runes)
+	if i := strings.IndexAny(line, "= "); i >= 0 {
+		return line[:i], line[i+1:]
 	}
-
-	return k.String(), v.String()
+	return line, ""
 }
 
 func oneOf(markers []byte, b byte) bool {
